@@ -92,6 +92,8 @@ def run(ctx):
         # tens of thousands of rows in low-cardinality columns (bitmaps of several KiB each, blocks of exactly 4096 rows)
         _traces(ctx, "large", "trace-large", sizes=[8192, 30000] + ([8193, 12288, 70000] if thorough else []), must=("Exec", "AddRows"))
         _traces(ctx, "small", "trace-small", runs=10 if thorough else 4)
+        # histories: Flush ok, open / close, a refused Flush onto the same path (same or another writer), open again
+        _traces(ctx, "clobber", "trace-refused-flush", runs=10 if thorough else 5, must=("Flush", "Plant", "Exec"))
     elif pid == "C08":
         ctx.cov["rule"] = ("MC_Lib: caller-held Query objects executed repeatedly on two indexes, answers = ExecSpec and visible fields unchanged "
                            "(negative control: scratch kept in the object); TLC-generated execution sequences are replayed with real *updog.Query "
